@@ -75,7 +75,7 @@ where
         }
         if let Err(what) = out.verdict {
             if args.verbose {
-                eprintln!("FAIL tags={:?} class={}", out.tags, out.class);
+                eprintln!("FAIL tags={:?} class={} sc={} what={}", out.tags, out.class, to_json(sc), what);
             }
             rep.violation(Violation { what, scenario: to_json(sc), tags: out.tags });
         }
